@@ -776,6 +776,10 @@ func (s *TxStore) Rollback(tx mwdb.DBTransaction, height uint64) error {
 							})
 						continue
 					}
+					if _, ok := allMined[ma.Account()]; !ok {
+						// wallet is being removed: its unspent/balance/address rows are gone
+						continue
+					}
 
 					unspentKey, credKey, err := existsUnspent(nsUnspent, ma.Account(), &op)
 					if err != nil {
@@ -913,6 +917,10 @@ func (s *TxStore) Rollback(tx mwdb.DBTransaction, height uint64) error {
 					}
 					return err
 				}
+				if _, ok := allMined[ma.Account()]; !ok {
+					// wallet is being removed: its unspent/balance/history rows are gone
+					continue
+				}
 
 				unspentVal, err := fetchNsUnspentValueFromRawCredit(credKey)
 				if err != nil {
@@ -992,6 +1000,10 @@ func (s *TxStore) Rollback(tx mwdb.DBTransaction, height uint64) error {
 							"height":     curHeight,
 							"err":        err,
 						})
+					continue
+				}
+				if _, ok := allMined[ma.Account()]; !ok {
+					// wallet is being removed: its unspent/balance/address rows are gone
 					continue
 				}
 
